@@ -11,6 +11,8 @@ import (
 
 // Rules added after the third seeding round (k = 7…9). Run after seedfix4.
 var seedfix5 = map[string]func(*Ctx){
+	"C02": seedfix5C02, "C04": seedfix5C04, "C37": seedfix5C37, "C06": seedfix5C06, "C09": seedfix5C09,
+	"C16": seedfix5C16, "C23": seedfix5C23, "C39": seedfix5C39, "C42": seedfix5C42, "C43": seedfix5C43,
 	"C01": seedfix5C01, "C03": seedfix5C03, "C05": seedfix5C05, "C07": seedfix5C07, "C08": seedfix5C08,
 	"C11": seedfix5C11, "C12": seedfix5C12, "C13": seedfix5C13, "C14": seedfix5C14, "C15": seedfix5C15,
 	"C17": seedfix5C17, "C18": seedfix5C18, "C19": seedfix5C19, "C20": seedfix5C20, "C21": seedfix5C21,
@@ -97,6 +99,233 @@ func constIndexCovered(c *Ctx, rule string, fn *ssa.Function) {
 	}
 }
 
+// ---------------------------------------------------------------- C02 / C04 / C37
+
+func seedfix5C02(c *Ctx) {
+	u, r := c.U, c.R
+	// R-DRAIN-ONLY-STREAM-CALLS: serveOne drains the client's input only where it knows the
+	// refused call is a stream call (an unknown or unary-shaped request has no input stream
+	// behind it: draining swallows the next request).
+	if fn := c.Fn("R-DRAIN-ONLY-STREAM-CALLS", "(*Server).serveOne"); fn != nil {
+		n := 0
+		for _, cs := range u.Calls(fn, Is("drainInputStream")) {
+			n++
+			okG := false
+			for _, g := range u.GuardStrings(cs.Instr) {
+				if strings.Contains(g, ".Type ") || strings.Contains(g, ".Type)") {
+					okG = true
+				}
+			}
+			r.Check(okG, "R-DRAIN-ONLY-STREAM-CALLS", "serveOne|drain#"+itoa(n), u.Pos(cs.Instr.Pos()), "drain guarded by the method's kind", "serveOne drains the input stream on a path that does not know the call is a stream call: for a unary-shaped request the next request on the connection is swallowed")
+		}
+		if n == 0 {
+			r.Ok("R-DRAIN-ONLY-STREAM-CALLS", "serveOne", u.Pos(fn.Pos()), "serveOne itself drains nothing")
+		}
+	}
+	// R-ANSWER-BEFORE-DRAIN: a failed stream init is answered first and the client's input drained
+	// afterwards (a lockstep client sends its next input only after reading the answer).
+	if fn := c.Fn("R-ANSWER-BEFORE-DRAIN", "(*Server).serveStream"); fn != nil {
+		writes := u.Calls(fn, Or(Is("writeErrorResponse"), Is("writeErrorBatch"), HasSuffix("ipc.Writer).Close")))
+		n := 0
+		for _, cs := range u.Calls(fn, Is("drainInputStream")) {
+			n++
+			dom := false
+			for _, w := range writes {
+				if Dominates(w.Instr, cs.Instr) {
+					dom = true
+				}
+			}
+			r.Check(dom, "R-ANSWER-BEFORE-DRAIN", "serveStream|drain#"+itoa(n), u.Pos(cs.Instr.Pos()), "an error answer precedes the drain", "serveStream drains the client's input before the failure is answered: a lockstep client waits for the answer before closing its input, so both sides block")
+		}
+		if n == 0 {
+			r.Undec("R-ANSWER-BEFORE-DRAIN", "serveStream", u.Pos(fn.Pos()), "no drain found")
+		}
+	}
+	r.Floor("R-ANSWER-BEFORE-DRAIN", 3)
+}
+
+func seedfix5C06(c *Ctx) {
+	u, r := c.U, c.R
+	fn := c.Fn("R-RELEASE-ONLY-ON-FAILURE", "(*Server).serveStream")
+	if fn == nil {
+		return
+	}
+	// R-RELEASE-ONLY-ON-FAILURE: the turn's collected batches are discarded (not flushed) only on
+	// a failure — never merely because the producer finished (its last logs and batch are flushed).
+	n := 0
+	for _, cs := range u.Calls(fn, Is("(*OutputCollector).releaseBatches")) {
+		n++
+		gs := u.GuardStrings(cs.Instr)
+		failure := false
+		finished := false
+		for _, g := range gs {
+			if strings.HasSuffix(g, "!= nil)") && (strings.Contains(g, "Err") || strings.Contains(g, "err") || strings.Contains(g, "validate(") || strings.Contains(g, "Write(")) {
+				failure = true
+			}
+			if strings.HasPrefix(g, "(*OutputCollector).Finished(") {
+				finished = true
+			}
+		}
+		failure = failure && !finished
+		r.Check(failure, "R-RELEASE-ONLY-ON-FAILURE", "serveStream|release#"+itoa(n), u.Pos(cs.Instr.Pos()), "discarded under a failure test", "serveStream discards the turn's batches under ["+strings.Join(gs, " && ")+"], with no failure in sight: logs (or a data batch) written on the producer's finishing turn are dropped instead of delivered")
+	}
+	if n == 0 {
+		r.Undec("R-RELEASE-ONLY-ON-FAILURE", "serveStream", u.Pos(fn.Pos()), "no discard found")
+	}
+	// R-DYNAMIC-INPUT-SCHEMA: the pipe loop's cast target falls back to the StreamResult's input
+	// schema (runtime-typed streams register none).
+	reads := false
+	Instrs(fn, func(in ssa.Instruction) {
+		if fa, ok := in.(*ssa.FieldAddr); ok && strings.HasSuffix(typeShort(derefType(fa.X.Type())), "StreamResult") && fieldName(derefType(fa.X.Type()), fa.Field) == "InputSchema" {
+			reads = true
+		}
+	})
+	r.Check(reads, "R-DYNAMIC-INPUT-SCHEMA", "serveStream", u.Pos(fn.Pos()), "StreamResult.InputSchema is consulted", "serveStream never reads StreamResult.InputSchema: a runtime-typed exchange gets no input cast, so a castable-but-unequal input reaches the state uncast")
+	r.Floor("R-RELEASE-ONLY-ON-FAILURE", 2)
+	r.Floor("R-DYNAMIC-INPUT-SCHEMA", 1)
+}
+
+func seedfix5C09(c *Ctx) {
+	u, r := c.U, c.R
+	// R-REGISTER-SIBLINGS: every registration function derives the advertised parameter schema
+	// through paramsSchemaFor (which honours a declared wire schema).
+	n := 0
+	for _, name := range []string{"Unary", "UnaryVoid", "Producer", "ProducerWithHeader", "Exchange", "ExchangeWithHeader", "DynamicStreamWithHeader"} {
+		fn := u.Func(name)
+		if fn == nil {
+			continue
+		}
+		n++
+		via := len(u.Calls(fn, Is("paramsSchemaFor"))) > 0
+		direct := len(u.Calls(fn, Is("structToSchema")))
+		r.Check(via && direct == 0, "R-REGISTER-SIBLINGS", name, u.Pos(fn.Pos()), "parameter schema from paramsSchemaFor", name+" derives the parameter schema without paramsSchemaFor: a params type that declares its own wire schema is advertised (and hashed) with the flat Go-field schema on this registration path only")
+	}
+	r.Check(n >= 6, "R-REGISTER-SIBLINGS", "registrations", "-", itoa(n)+" registration functions examined", "only "+itoa(n)+" registration functions found")
+	// R-METHOD-TYPE-BY-KIND: the advertised method_type is chosen by the method's kind.
+	if fn := c.Fn("R-METHOD-TYPE-BY-KIND", "(*Server).buildDescribeBatch"); fn != nil {
+		n2 := 0
+		Instrs(fn, func(in ssa.Instruction) {
+			phi, ok := in.(*ssa.Phi)
+			if !ok {
+				return
+			}
+			for i, e := range phi.Edges {
+				if s, isS := ConstString(e); isS && s == "stream" {
+					n2++
+					p := phi.Block().Preds[i]
+					gs := strings.Join(append(u.GuardStrings(p.Instrs[len(p.Instrs)-1]), func() []string {
+						var o []string
+						for _, g := range blockEntryGuard(p) {
+							o = append(o, u.Describe(g.Cond))
+						}
+						return o
+					}()...), " && ")
+					r.Check(strings.Contains(gs, ".Type"), "R-METHOD-TYPE-BY-KIND", "buildDescribeBatch|stream", u.Pos(in.Pos()), "\"stream\" chosen by info.Type", "method_type \"stream\" is chosen under ["+gs+"], not by the method's kind: a runtime-typed stream (no registered output schema) is advertised as unary")
+				}
+			}
+		})
+		if n2 == 0 {
+			r.Ok("R-METHOD-TYPE-BY-KIND", "buildDescribeBatch|shape", u.Pos(fn.Pos()), "method_type is not selected through a phi of constants (not the shape this rule judges)")
+		}
+	}
+	r.Floor("R-REGISTER-SIBLINGS", 7)
+}
+
+// resolveResultAfterCheck: what ResolveShmBatch returned replaces req.Batch only once its error was seen nil.
+func resolveResultAfterCheck(c *Ctx, rule string) {
+	u, r := c.U, c.R
+	n := 0
+	for _, name := range []string{"(*Server).serveOne", "(*Server).serveStream"} {
+		fn := u.Func(name)
+		if fn == nil {
+			continue
+		}
+		for _, cs := range u.Calls(fn, Is("ResolveShmBatch")) {
+			call, ok := cs.Instr.(*ssa.Call)
+			if !ok {
+				continue
+			}
+			Instrs(fn, func(in ssa.Instruction) {
+				st, ok := in.(*ssa.Store)
+				if !ok {
+					return
+				}
+				ex, isEx := st.Val.(*ssa.Extract)
+				if !isEx || ex.Tuple != ssa.Value(call) || ex.Index != 0 {
+					return
+				}
+				if _, isField := st.Addr.(*ssa.FieldAddr); !isField {
+					return
+				}
+				n++
+				r.Check(u.GuardedErrNilOf(in, call), rule, shortName(fn)+"|adopt#"+itoa(n), u.Pos(in.Pos()), "the resolved batch is adopted only after the resolve error was seen nil", shortName(fn)+" installs ResolveShmBatch's result before looking at its error: an ordinary resolve failure returns nil, and the deferred Release on it panics outside any recover")
+			})
+		}
+	}
+	if n == 0 {
+		r.Ok(rule, "resolve-sites", "-", "no field is assigned from ResolveShmBatch's result")
+	}
+}
+
+func seedfix5C04(c *Ctx) {
+	u, r := c.U, c.R
+	// R-HANDLER-ERROR-IN-STREAM: over HTTP a handler's error is answered by the logs-then-exception
+	// stream, never by the bare error responder (which drops the logs the handler emitted).
+	if fn := c.Fn("R-HANDLER-ERROR-IN-STREAM", "(*HttpServer).handleUnary"); fn != nil {
+		n := 0
+		for _, cs := range u.Calls(fn, Is("(*HttpServer).writeHttpError")) {
+			d := u.Describe(cs.Arg(3))
+			if d != "callErr" {
+				continue
+			}
+			n++
+			r.Viol("R-HANDLER-ERROR-IN-STREAM", "handleUnary|writeHttpError#"+itoa(n), u.Pos(cs.Instr.Pos()), "handleUnary answers the handler's own error through writeHttpError: the log batches the handler emitted before failing are dropped and the exception carries no request id, unlike the pipe transport")
+		}
+		if n == 0 {
+			r.Ok("R-HANDLER-ERROR-IN-STREAM", "handleUnary", u.Pos(fn.Pos()), "the handler's error is never passed to the bare error responder")
+		}
+	}
+	r.Floor("R-HANDLER-ERROR-IN-STREAM", 1)
+}
+
+func seedfix5C37(c *Ctx) {
+	u, r := c.U, c.R
+	// R-UNARY-ERR-RECORDED: whenever serveUnary writes an exception batch, the error it returns to
+	// the dispatch hook is the one written (non-nil).
+	if fn := c.Fn("R-UNARY-ERR-RECORDED", "(*Server).serveUnary"); fn != nil {
+		n := 0
+		for _, cs := range u.Calls(fn, Or(Is("writeErrorBatch"), Is("writeErrorResponse"))) {
+			var errArg ssa.Value
+			for _, a := range cs.Common().Args {
+				if isErrorType(a.Type()) {
+					errArg = a
+				}
+			}
+			if errArg == nil {
+				continue
+			}
+			// the return reached from here
+			Instrs(fn, func(in ssa.Instruction) {
+				ret, ok := in.(*ssa.Return)
+				if !ok || len(ret.Results) != 2 || InRecoverBlock(in) {
+					return
+				}
+				if !(Dominates(cs.Instr, in) || cs.Instr.Block() == in.Block()) {
+					return
+				}
+				n++
+				h := ReturnValue(ret, 0)
+				same := h == errArg || u.Describe(h) == u.Describe(errArg)
+				r.Check(same, "R-UNARY-ERR-RECORDED", "serveUnary|"+exitKey(u, in.Block()), u.Pos(in.Pos()), "the error written is the error reported", "serveUnary writes "+u.Describe(errArg)+" to the client but reports "+u.Describe(h)+" to the dispatch hook: OnDispatchEnd sees success for a call that answered with an exception")
+			})
+		}
+		if n == 0 {
+			r.Undec("R-UNARY-ERR-RECORDED", "serveUnary", u.Pos(fn.Pos()), "no exception write followed by a return")
+		}
+	}
+	r.Floor("R-UNARY-ERR-RECORDED", 2)
+}
+
 // ---------------------------------------------------------------- C01
 
 func seedfix5C01(c *Ctx) {
@@ -165,7 +394,9 @@ func seedfix5C03(c *Ctx) {
 	if fn := c.Fn("R-TOKEN-BYTES-COVERED", "(*HttpServer).openToken"); fn != nil {
 		constIndexCovered(c, "R-TOKEN-BYTES-COVERED", fn)
 	}
+	resolveResultAfterCheck(c, "R-RESOLVE-ADOPTED-AFTER-CHECK")
 	c.R.Floor("R-TOKEN-BYTES-COVERED", 2)
+	c.R.Floor("R-RESOLVE-ADOPTED-AFTER-CHECK", 1)
 }
 
 func seedfix5C12(c *Ctx) {
@@ -1056,6 +1287,160 @@ func seedfix5C38(c *Ctx) {
 	r.Floor("R-LINE-ATOMIC", 1)
 	r.Floor("R-PAYLOAD-CAPTURED-EVERYWHERE", 2)
 	r.Floor("R-BYTES-AS-WRITTEN", 1)
+}
+
+func seedfix5C16(c *Ctx) {
+	u, r := c.U, c.R
+	// R-CANCEL-BY-KEY-ALONE: a continuation is a cancel exactly when it carries the cancel key
+	// (the pipe loop goes by the key alone; the batch's contents play no part).
+	if fn := c.Fn("R-CANCEL-BY-KEY-ALONE", "(*HttpServer).handleStreamExchange"); fn != nil {
+		n := 0
+		Instrs(fn, func(in ssa.Instruction) {
+			var v ssa.Value
+			switch x := in.(type) {
+			case *ssa.Phi:
+				if u.VarName(x) == "cancelled" {
+					v = x
+				}
+			case *ssa.Store:
+				if al, ok := x.Addr.(*ssa.Alloc); ok && u.VarName(al) == "cancelled" {
+					v = x.Val
+				}
+			}
+			if v == nil {
+				return
+			}
+			n++
+			d := u.describe(v, 12)
+			bad := strings.Contains(d, "NumRows(") || strings.Contains(d, "NumCols(")
+			if phi, ok := v.(*ssa.Phi); ok {
+				for i := range phi.Edges {
+					p := phi.Block().Preds[i]
+					for _, g := range u.GuardStrings(p.Instrs[len(p.Instrs)-1]) {
+						if strings.Contains(g, "NumRows(") {
+							bad = true
+						}
+					}
+				}
+			}
+			r.Check(!bad, "R-CANCEL-BY-KEY-ALONE", "handleStreamExchange|cancelled#"+itoa(n), u.Pos(in.Pos()), "cancel decided by the key alone", "handleStreamExchange decides `cancelled` with the batch's row count: a cancel key on a batch that has rows is dispatched as an ordinary turn (OnCancel never runs), unlike the pipe transport")
+		})
+		if n == 0 {
+			r.Ok("R-CANCEL-BY-KEY-ALONE", "handleStreamExchange|shape", u.Pos(fn.Pos()), "`cancelled` is a plain value (judged by the cancel rules of the main check)")
+		}
+	}
+}
+
+func seedfix5C23(c *Ctx) {
+	u, r := c.U, c.R
+	// R-RETRY-AFTER-DEFAULTED: the Retry-After value is defaulted where it is read, so every way
+	// of constructing the error (the constructor or a literal) gets a positive value.
+	if fn := c.Fn("R-RETRY-AFTER-DEFAULTED", "(*AuthUnavailableError).retryAfterSeconds"); fn != nil {
+		test := false
+		Instrs(fn, func(in ssa.Instruction) {
+			if b, ok := in.(*ssa.BinOp); ok && (b.Op == token.LEQ || b.Op == token.LSS || b.Op == token.GTR || b.Op == token.GEQ) {
+				if k, isK := ConstInt(b.Y); isK && k <= 1 && strings.Contains(u.Describe(b.X), "RetryAfter") {
+					test = true
+				}
+			}
+		})
+		r.Check(test, "R-RETRY-AFTER-DEFAULTED", "retryAfterSeconds", u.Pos(fn.Pos()), "a non-positive RetryAfter is replaced by the default at the point of use", "retryAfterSeconds returns the raw field: an AuthUnavailableError built as a literal (zero RetryAfter, documented as 'package default') answers 503 with Retry-After: 0")
+	}
+	r.Floor("R-RETRY-AFTER-DEFAULTED", 1)
+}
+
+func seedfix5C39(c *Ctx) {
+	u, r := c.U, c.R
+	// R-SAMPLE-AT-EMIT-ONLY: the sampling decision is taken once, in emit, on the complete record
+	// (with its stream id) and before the record is queued.
+	if fn := u.Func("(*accessLogSampler).keep"); fn != nil {
+		var callers []string
+		for _, cs := range u.Callers(fn) {
+			callers = append(callers, shortName(cs.Fn))
+		}
+		sort.Strings(callers)
+		r.Check(len(callers) == 1 && callers[0] == "(*AccessLogHook).emit", "R-SAMPLE-AT-EMIT-ONLY", "keep-callers", u.Pos(fn.Pos()), "keep is consulted only by emit", "the sampler is consulted from "+strings.Join(callers, ", ")+": a decision taken before the stream id is on the record splits a stream's records, and one taken in the writer goroutine can drop the record that carries dropped_records")
+	} else {
+		r.Undec("R-SAMPLE-AT-EMIT-ONLY", "keep", "-", "sampler not found")
+	}
+	r.Floor("R-SAMPLE-AT-EMIT-ONLY", 1)
+}
+
+func seedfix5C42(c *Ctx) {
+	u, r := c.U, c.R
+	// R-SERVE-UNLOCKED: a connection's serve loop calls serveOne holding no lock.
+	n := 0
+	for _, name := range []string{"(*Server).serveTcpConn", "(*Server).serveUnixConn"} {
+		fn := u.Func(name)
+		if fn == nil {
+			continue
+		}
+		held := u.LockHeldAt(fn)
+		for _, cs := range u.Calls(fn, Is("(*Server).serveOne")) {
+			n++
+			var hs []string
+			for l := range held[cs.Instr] {
+				hs = append(hs, l)
+			}
+			r.Check(len(hs) == 0, "R-SERVE-UNLOCKED", strings.TrimPrefix(name, "(*Server)."), u.Pos(cs.Instr.Pos()), "serveOne called with no lock held", name+" calls serveOne (which begins with a blocking read) holding "+strings.Join(hs, ", ")+": an idle connection blocks every other connection")
+		}
+	}
+	if n == 0 {
+		r.Undec("R-SERVE-UNLOCKED", "serve loops", "-", "no serveOne call in the connection loops")
+	}
+	// R-REMOVE-BOUND-PATH: the socket file removed on return is the path that was bound.
+	if fn := c.Fn("R-REMOVE-BOUND-PATH", "(*Server).RunUnix"); fn != nil {
+		n2 := 0
+		for _, f := range WithAnon(fn) {
+			for _, cs := range u.Calls(f, Is("os.Remove")) {
+				if _, isDefer := cs.Instr.(*ssa.Defer); !isDefer && f == fn {
+					continue // the stale-file removal before Listen
+				}
+				n2++
+				d := u.Describe(cs.Arg(0))
+				r.Check(d == u.VarName(fn.Params[1]), "R-REMOVE-BOUND-PATH", "RunUnix|remove#"+itoa(n2), u.Pos(cs.Instr.Pos()), "removes the path argument", "RunUnix removes "+d+" on return, not the socket path it serves on: the socket file is left behind")
+			}
+		}
+		if n2 == 0 {
+			r.Undec("R-REMOVE-BOUND-PATH", "RunUnix", u.Pos(fn.Pos()), "no deferred removal")
+		}
+	}
+	r.Floor("R-SERVE-UNLOCKED", 2)
+	r.Floor("R-REMOVE-BOUND-PATH", 1)
+}
+
+func seedfix5C43(c *Ctx) {
+	u, r := c.Unit["otel"], c.R
+	if u == nil {
+		return
+	}
+	end := u.Func("(*otelHook).OnDispatchEnd")
+	if end == nil {
+		return
+	}
+	// R-END-IF-RECORDING: the span is finished under IsRecording() (a recording span that is not
+	// sampled must still be ended), and the error status does not depend on RecordExceptions.
+	n := 0
+	for _, cs := range u.Calls(end, nil) {
+		if !cs.Common().IsInvoke() {
+			continue
+		}
+		switch cs.Common().Method.Name() {
+		case "End":
+			n++
+			gs := strings.Join(u.GuardStrings(cs.Instr), " && ")
+			r.Check(strings.Contains(gs, "IsRecording(") && !strings.Contains(gs, "IsSampled("), "R-END-IF-RECORDING", "End#"+itoa(n), u.Pos(cs.Instr.Pos()), "End under IsRecording()", "span.End() runs under ["+gs+"]: a span that records but is not sampled is never ended")
+		case "SetStatus":
+			gs := strings.Join(u.GuardStrings(cs.Instr), " && ")
+			if strings.Contains(gs, "!= nil") {
+				r.Check(!strings.Contains(gs, "RecordExceptions"), "R-END-IF-RECORDING", "SetStatus-error", u.Pos(cs.Instr.Pos()), "error status set whatever RecordExceptions says", "the error status is set only under RecordExceptions: with it off a failed call's span ends with status Unset")
+			}
+		}
+	}
+	if n == 0 {
+		r.Undec("R-END-IF-RECORDING", "OnDispatchEnd", u.Pos(end.Pos()), "no End call")
+	}
+	r.Floor("R-END-IF-RECORDING", 1)
 }
 
 func seedfix5C40(c *Ctx) {
